@@ -160,11 +160,19 @@ inductive ReadOut where
   | value (data : Bytes)
   deriving Repr, DecidableEq
 
+/-- `getLocalIntoBuf` looks at the opcode first: a no-op reply ends the batch whatever its status. -/
+def noopEnds (r : Resp) : Resp :=
+  match r with
+  | .status _ => .ok
+  | r => r
+
+@[simp] theorem noopEnds_ok : noopEnds .ok = .ok := rfl
+
 /-- Send quiet requests for all chunks plus a noop, run the read loop. -/
 def readChunks (t : Tier) (op : Op) (key : Bytes) (exptime : Nat) (md : Meta) : Prog ε ReadOut := do
   let rs ← askChunks t op key exptime md.numChunks 0
   let nr ← Prog.req t { op := .noop }
-  let s := readLoop md { buf := Bytes.zeros md.length } (rs ++ [nr])
+  let s := readLoop md { buf := Bytes.zeros md.length } (rs ++ [noopEnds nr])
   match s.lastErr with
   | some e => pure (.err e)
   | none =>
